@@ -165,6 +165,7 @@ COPYFN = {"strcpy": None, "strcat": None, "strncpy": 2, "HIstrncpy": 2, "memcpy"
 F2S_EXCEPT = {
     "F2s:H4_NC_new_cdf:cdf->path": "reached only after Hopen/fopen succeeded on `name`, which the OS refuses for names longer than PATH_MAX "
                                    "(= FILENAME_MAX, the buffer size - 1); replay with a 6004-character path is refused (triage/c20_sdstart_longpath.c)",
+    "F2s:SDsetrange:data": "length is DFKNTsize() of a supported number type (at most 8) and two values are stored: 16 of the 80 bytes",
     "F2s:DFSDsetfillvalue:Writesdg.fill_value": "length is DFKNTsize() of a supported number type (at most 8), the buffer holds 16 bytes",
 }
 
@@ -235,6 +236,10 @@ class F2s(PathAnalysis):
                     rows = [f[2] for f in facts if f[0] == "row" and f[1] == d[1]]
                     if rows:
                         N = min(rows)
+                    elif d[2] == "l":
+                        ti = self.prog.types.get(d[3])
+                        if ti and ti[0] == "arr":
+                            N = ti[1]  # a local fixed-size buffer
                 if N is None:
                     continue
                 ok, why = self._bounded(n, N, facts, env)
@@ -281,6 +286,14 @@ class F2s(PathAnalysis):
             ti = self.prog.types.get((a[4] if kind(a) == "mem" else a[3]) if kind(a) in ("mem", "var") else "")
             if ti and ti[0] == "arr":
                 bs.append(ti[1] - 1)
+            # lemma: the text of an NC_string is at most as long as its constructor allows
+            a2 = a
+            while kind(a2) in ("deref", "cast"):
+                a2 = strip(a2[1] if kind(a2) == "deref" else a2[2])
+            if kind(a2) == "mem" and a2[2] == "values" and a2[3] in ("NC_string",):
+                b = _nc_string_bound(self.prog)
+                if b is not None:
+                    bs.append(b)
             return min(bs) if bs else None
         return None
 
@@ -303,6 +316,38 @@ class F2s(PathAnalysis):
         if ub is not None and ub <= N:
             return True, "length is at most %d of %d bytes" % (ub, N)
         return False, "%s with length `%s` that is not bounded by the %d-byte destination on this path" % (nm, render(ln)[:40], N)
+
+
+def _nc_string_bound(prog):
+    """maximum text length of an NC_string: its constructors NC_new_string / NC_re_string refuse a longer count.  Returns the
+    bound only if every function that stores into NC_string.values is one of those constructors (or the XDR decoder, which
+    builds the string through NC_new_string) and each has the `count > K` guard."""
+    c = getattr(prog, "_nc_string_bound", False)
+    if c is not False:
+        return c
+    bound = None
+    ok = True
+    writers = set()
+    for f in prog.lib_funcs():
+        for _b, _i, _s, x in f.nodes(True):
+            if x[0] == "asg" and mem_field(x[2]) == ("NC_string", "values"):
+                writers.add(f.name)
+    for w in writers:
+        f = prog.func(w)
+        ks = []
+        for b in f.blocks.values():
+            t = b.get("term")
+            if t and t.get("cond") is not None:
+                c2 = strip(t["cond"])
+                if kind(c2) == "bin" and c2[1] == ">" and kind(strip(c2[2])) == "var" and strip(c2[2])[1] == "count" and is_int(c2[3]):
+                    ks.append(int_val(c2[3]))
+        if not ks:
+            ok = False
+        else:
+            bound = max(ks) if bound is None else max(bound, max(ks))
+    prog._nc_string_bound = bound if (ok and writers) else None
+    prog._nc_string_writers = sorted(writers)
+    return prog._nc_string_bound
 
 
 def _global_row_size(prog, e):
@@ -329,6 +374,15 @@ def rule_F2_strings(ctx):
         for _, _, _, c in f.calls():
             if hit:
                 break
+            if c[1] in COPYFN and c[3]:
+                d0 = strip(c[3][0])
+                while kind(d0) == "cast":
+                    d0 = strip(d0[2])
+                if kind(d0) == "var" and d0[2] == "l":
+                    ti0 = prog.types.get(d0[3])
+                    if ti0 and ti0[0] == "arr":
+                        hit = True
+                        break
             if c[1] in COPYFN and c[3]:
                 d = strip(c[3][0])
                 while kind(d) == "cast":
@@ -533,4 +587,50 @@ def rule_F2_globals(ctx):
             else:
                 ctx.violated("F2g", key, f.where(), "`%s[%s]` is used on a path where `%s` is not known to be below the array dimension %d" % (arr, k[:40], k[:40], G[arr]))
     ctx.floor("F2g", 2, n, "(running counters used as index into fixed-size global arrays)")
+    return n
+
+
+# ---------------------------------------------------------------------------------------
+# PARALLEL: arrays filled side by side by one running counter have the same size
+
+def rule_parallel_arrays(ctx):
+    """PARALLEL (C20): when one running counter fills two local arrays in lock-step (`tags[n] = ..; refs[n] = ..; n++`), the
+    two arrays must have the same dimension -- the smaller one is the real capacity of the pair and the larger one hides an
+    overrun of its sibling (hdf_write_var's tags[] was 8 entries shorter than refs[])."""
+    prog = ctx.prog
+    n = 0
+    for f in prog.lib_funcs():
+        # local fixed arrays stored through `A[v] = ..` with a plain variable index
+        stores = {}
+        perblock = {}
+        for _b, _i, st, x in f.nodes(True):
+            if x[0] == "asg" and x[1] == "=":
+                t = strip(x[2])
+                if kind(t) == "idx" and kind(strip(t[1])) == "var" and strip(t[1])[2] == "l" and kind(strip(t[2])) == "var":
+                    a = strip(t[1])
+                    ti = prog.types.get(a[3])
+                    if ti and ti[0] == "arr":
+                        perblock.setdefault((strip(t[2])[1], _b), {}).setdefault(a[1], (ti[1], x[4]))
+        # lock-step = stored with the same index variable inside the same basic block
+        for (v, _blk), arrs in perblock.items():
+            if len(arrs) >= 2:
+                stores.setdefault(v, {}).update(arrs)
+        # running counters only
+        counters = set()
+        for _b, _i, _s, x in f.nodes(True):
+            if x[0] == "incdec" and x[1] == "++" and kind(strip(x[3])) == "var":
+                counters.add(strip(x[3])[1])
+        for v, arrs in stores.items():
+            if v not in counters or len(arrs) < 2:
+                continue
+            n += 1
+            key = "PARALLEL:%s:%s" % (f.name, v)
+            dims = {a: d for a, (d, _l) in arrs.items()}
+            if len(set(dims.values())) == 1:
+                ctx.holds("PARALLEL", key, f.where(), "arrays %s filled by `%s` all have %d elements" % (", ".join(sorted(dims)), v, next(iter(dims.values()))), nontrivial=True)
+            else:
+                small = min(dims, key=dims.get)
+                ctx.violated("PARALLEL", key, f.where(arrs[small][1]), "`%s` fills %s side by side, but `%s` has only %d elements: it is overrun before its sibling is full" % (
+                    v, ", ".join("%s[%d]" % (a, d) for a, d in sorted(dims.items())), small, dims[small]))
+    ctx.floor("PARALLEL", 3, n, "(counters filling several local arrays in lock-step)")
     return n
